@@ -252,7 +252,7 @@ struct Value {
     }
 
     void SetPointerToValue(const Value *val_ptr) {
-        reset();
+        Reset();
 
         if (val_ptr != nullptr) {
             setTypeToPtrValue();
